@@ -20,6 +20,11 @@ Carry(a, b, n, k, c) ==   \* limbs k..n of a*b given the carry c into limb k
 
 Mul(a, b) == Carry(a, b, Len(a), 1, 0)        \* (a * b) mod 256^n
 
+\* (a + b) mod 256^n
+RECURSIVE AddFrom(_, _, _, _)
+AddFrom(a, b, k, c) == IF k > Len(a) THEN <<>> ELSE LET t == a[k] + b[k] + c IN <<t % 256>> \o AddFrom(a, b, k + 1, t \div 256)
+Add(a, b) == AddFrom(a, b, 1, 0)
+
 \* a^p mod 256^n by p successive multiplications
 Pow(a, p) == FoldLeft(LAMBDA acc, k : Mul(acc, a), One(Len(a)), [k \in 1..p |-> k])
 
